@@ -8,7 +8,7 @@ package streamfilter
 //	(3) a flow whose filter accepts the transaction is selected unless a flow with a more specific URL pattern that
 //	    also matches is configured (the engine applies the most specific matching nodes).
 //
-// Exhaustive over: every set of 1..3 flows out of 10 (URL pattern, method constraint) filters under one host, EVERY load
+// Exhaustive over: every set of 1..3 flows out of 11 (URL pattern, method constraint) filters (one written with a trailing slash) under one host, EVERY load
 // order, 8 request URLs x 2 methods. The REAL FilterTree.AddFlow / GetFlow run. Labelled bounded: never counted as proved.
 
 import (
@@ -68,7 +68,7 @@ type c03Filter struct {
 func TestBoundedC03LoadOrderAndOwnFilter(t *testing.T) {
 	filters := []c03Filter{
 		{"a.com/*", ""}, {"a.com/*", "GET"}, {"a.com/x", ""}, {"a.com/x", "POST"}, {"a.com/{p}", "GET"},
-		{"a.com/x/*", ""}, {"a.com/x/y", "GET"}, {"a.com/{p}/y", ""}, {"a.com", ""}, {"a.com/x/y/*", "POST"},
+		{"a.com/x/*", ""}, {"a.com/x/y", "GET"}, {"a.com/{p}/y", ""}, {"a.com", ""}, {"a.com/x/y/*", "POST"}, {"a.com/x/", "GET"},
 	}
 	urls := []string{"a.com", "a.com/x", "a.com/y", "a.com/x/y", "a.com/y/y", "a.com/x/z", "a.com/x/y/z", "a.com/y/z/w"}
 	reqMethods := []string{"GET", "POST"}
@@ -118,7 +118,7 @@ func TestBoundedC03LoadOrderAndOwnFilter(t *testing.T) {
 					// (2) own filter
 					for _, n := range names {
 						f := byName[n]
-						if !c03URLMatches(f.url, u) || (f.method != "" && f.method != m) {
+						if !c03URLMatches(strings.Trim(f.url, "/"), u) || (f.method != "" && f.method != m) {
 							t.Fatalf("REPLAY flows %v loaded in order %v: %s %s selects %s, whose own filter (%s %q) does not accept it", set, perm, m, u, n, f.url, f.method)
 						}
 					}
